@@ -10,7 +10,9 @@
 #include "src/core/ChunkStore.cpp"
 #include "src/dht/KademliaTable.cpp"
 namespace ephemeralnet {
-namespace { using SchedulerLock = std::unique_lock<std::recursive_mutex>; }
+namespace { using SchedulerLock = std::unique_lock<std::recursive_mutex>;
+#include SNIP_AUTO
+}
 void Node::rebalance_swarm_plans() {}
 void Node::process_pending_uploads() {}
 void Node::process_pending_fetches() {}
